@@ -255,6 +255,16 @@ def rule_r2(rep, program: Program, et: ExcTypes):
     r.inst({"function": "_sample_chains_parallel", "interrupt item recorded": not skipped and bool(assigns), "can raise": bool(raised)})
     if skipped or not assigns:
         r.violate(PROP, "_sample_chains_parallel:interrupt-item-ignored", "a KeyboardInterrupt received from a worker is not recorded as the returned exception (or the progress loop keeps waiting)", node=gets[0].ast, file=f.file)
+    # once the interrupt item is recorded the progress loop is left: the interrupted worker stops taking
+    # chains from the queue, so a loop that goes on waiting for `chains_completed == n_chain` may never end
+    waits = []
+    for a in assigns:
+        for s2, lab in a.succ:
+            if lab != "exc":
+                waits += can_avoid(cfg, s2, set(), {gets[0]}, pruned)
+    r.inst({"function": "_sample_chains_parallel", "waits on the queue again after an interrupt item": bool(waits)})
+    if waits:
+        r.violate(PROP, "_sample_chains_parallel:waits-after-interrupt", "after a worker's KeyboardInterrupt arrives the parent goes back to iter_queue.get(): interrupted workers take no more chains from the chain queue, so when chains are still queued the completion count is never reached and sample_chains never returns", node=gets[0].ast, file=f.file)
     if raised:
         r.violate(PROP, "_sample_chains_parallel:interrupt-item-raises", "a KeyboardInterrupt received from a worker makes the parent raise instead of returning partial results", node=gets[0].ast, file=f.file)
     # parent's own KeyboardInterrupt handler stores it and does not re-raise; results still collected
